@@ -26,6 +26,46 @@ def resumeClearsOf (skeleton : List String) : Bool := skeleton.contains "set:vx.
 def closeGuardedOf (skeleton : List String) : Bool :=
   skeleton.take 5 == ["vx.closeMu.Lock", "if:vx.closed", "vx.closeMu.Unlock", "set:vx.closed=true", "vx.closeMu.Unlock"]
 
+/-! ### observers of the repaired shapes (`Gen.Conc.shape_*`, statement skeletons) -/
+
+def infixL (pat : List Char) : List Char → Bool
+  | [] => pat.isEmpty
+  | c :: r => pat.isPrefixOf (c :: r) || infixL pat r
+
+def hasSub (pat s : String) : Bool := infixL pat.toList s.toList
+
+def isCase (x : String) : Bool := "case ".toList.isPrefixOf x.toList
+
+/-- `Parser.WaitClose` is a loop around a `select` with an arm that receives from `p.closed` and
+returns, and an arm that receives from `p.sequences` (what it receives is discarded); no `default`. -/
+def waitDrainsOf (l : List String) : Bool :=
+  l.take 2 == ["for {", "select {"] &&
+  l.any (fun x => isCase x && hasSub "<-p.closed" x) &&
+  l.any (fun x => isCase x && hasSub "<-p.sequences" x) &&
+  !l.contains "default:" &&
+  (match l.dropWhile (fun x => !(isCase x && hasSub "<-p.closed" x)) with
+   | _ :: "return" :: _ => true
+   | _ => false)
+
+/-- the parser arm of the input goroutine's `select` tests whether the channel is closed and returns if it is -/
+def leavesOnClosedOf (l : List String) : Bool :=
+  match l.dropWhile (fun x => !(isCase x && hasSub ", ok := <-parser.Next()" x)) with
+  | _ :: "if !ok {" :: "return" :: _ => true
+  | _ => false
+
+/-- the arms of the input goroutine's `select`, in source order -/
+def selectArmsOf (l : List String) : List String := l.filter isCase |>.filter fun x => hasSub "<-" x
+
+/-- `PostEventBlocking` is a `select` without `default` over a send (the queue) and a receive from `vx.chQuit` -/
+def postQuitArmOf (l : List String) : Bool :=
+  l.contains "select {" && !l.contains "default:" &&
+  l.any (fun x => isCase x && hasSub "<-vx.chQuit" x) &&
+  l.any (fun x => isCase x && hasSub " <- ev" x)
+
+/-- `PostEvent` is a `select` with `default` over a send -/
+def postNonBlockingOf (l : List String) : Bool :=
+  l.contains "select {" && l.contains "default:" && l.any (fun x => isCase x && hasSub " <- ev" x)
+
 /-- Scheduling policies (who moves first when several labels are enabled). -/
 inductive Policy
   /-- the terminal answers at once and the library's goroutines run ahead of the caller: the caller's
